@@ -36,49 +36,92 @@ THEOREMS = [
     "PyYetiVerif.C11." + n
     for n in (
         "op4_variant_roundtrip_bigmat op4_variant_roundtrip_nonbigmat partition_irrelevant "
-        "real_codecs put_reals_spec skip_positions dir_matches_load"
+        "real_codecs put_reals_spec skip_positions dir_matches_load "
+        "op2_int_roundtrip op2_key_roundtrip op2_header_roundtrip op2_nt_roundtrip op2_matrix_roundtrip "
+        "op2_partition_irrelevant op2_cutoff_irrelevant op2_skip_positions op2_skip_record op2_table_roundtrip "
+        "op2_open_detects op2_dir_matches_read op2_roundtrip op2_skip_positions_general op2_skip_record_general "
+        "op2_goto_next"
     ).split()
 ]
 TRUSTED = [
-    "correspondence harness harness/props/c11.py (exact comparison of decoded content with the encoded logical content)",
+    "correspondence harness harness/props/c11.py (exact comparison of decoded content with the encoded logical content; "
+    "exact comparison of the Lean reader model's dump with what pyYeti's readers return / raise)",
+    "Model/Op2Read.lean is a hand transcription of op2.py (no translator): its agreement with the code is what the rd2 "
+    "streams check on generated files, on the 31 sample files of pyyeti/tests written by Nastran and on truncated / "
+    "mis-announced files; the file position is modelled as the list of bytes still ahead (tell = total - remaining; a "
+    "seek beyond the end is always followed by a _getkey that raises, argued in the model's header, not proved)",
     "the record grammar of OUTPUT2 is the one pyYeti's reader defines (no Nastran specification offline); OUTPUT4 "
     "variants as in the sample files of pyyeti/tests",
-    "CPython float() for the expected value of an ASCII field; numpy float32 -> float64 conversion",
+    "CPython float() for the expected value of an ASCII field; numpy float32 -> float64 conversion; little-endian host",
 ]
 RULE = (
     "a case is one file built from a logical content: OUTPUT4 binary (byte order x 32/64-bit keys x single/double x "
     "dense/bigmat/nonbigmat x real/complex, strings split at arbitrary places incl. adjacent and length-1 strings, "
-    "zeros inside strings, negative row counts, strings on both sides of the 3000-value cut-off), OUTPUT4 ASCII "
-    "(E or D exponents, perline 1..5, widths 12..26, with/without 1P, lower case), OUTPUT2 (byte order x key width, "
-    "matrix blocks single/double real/complex with split columns, table blocks with super-records); each file is read "
-    "in all modes and listed; non-trivial = some column has at least two strings or some record is split; distinct by "
-    "the logical content and variant"
+    "zeros inside strings, negative row counts, strings on both sides of the 3000-value cut-off, row counts 65535 / "
+    "65536 / 65537 with positive and negative NR), OUTPUT4 ASCII (E or D exponents, perline 1..5, widths 12..26, "
+    "with/without 1P, lower case), OUTPUT2 (byte order x key width, matrix blocks single/double real/complex with split "
+    "columns, strings of 2999/3000/3001 and more reals, table blocks with super-records whose pieces have 2999/3000/"
+    "3001/5000 keys in first and later positions); each file is read in all modes and listed. Reader-model streams "
+    "(driver command rd2 = Model/Op2Read.lean on the raw bytes): every generated OUTPUT2 file (model = content = "
+    "pyYeti), every *.op2 under pyyeti/tests (model = pyYeti: dblist, goto_next, every matrix, every table record, "
+    "rdop2mats), malformed files (truncation at random positions and at block boundaries, wrong first word, the other "
+    "key width announced, contents that violate the encoder's well-formedness: strings that do not fit, row 0, more "
+    "columns than the trailer says, table pieces with fewer than three keys): model and pyYeti must return the same or "
+    "raise the same exception class; non-trivial = some column has at least two strings or some record is split, every "
+    "rd2 case; distinct by the logical content and variant / by the bytes"
 )
 ASSUMPTIONS = [
-    "strings of one column do not overlap (adjacent is allowed); values are finite and not -0.0",
-    "table record pieces have at least three keys (rdop2tabheaders reads a 3-key header from every piece)",
-    "OUTPUT2 matrices have at least one column",
+    "strings of one column do not overlap (adjacent is allowed) in the generated cases (the theorems allow overlap: "
+    "IsPartition); values are finite and not -0.0",
+    "table record pieces have at least three keys (rdop2tabheaders reads a 3-key header from every piece) - explicit "
+    "hypothesis of op2_table_roundtrip / BlockOk; fewer keys are exercised in the malformed-content stream",
+    "OUTPUT2 matrices have at least one column (hypothesis cols != [] of the theorems: with no column the encoder writes "
+    "no column trailer and the do-while of rdop2matrix misreads the next block)",
+    "behaviour outside the reader model (Err.exotic: backward seek from a negative record length, non-ASCII header "
+    "text, allocation of >= 2^31 bytes from a garbage key) is skipped and counted, only on malformed files",
 ]
 PARTIAL = (
-    "proved: op4 column-payload round trip for any string partition and either words-per-real (word level), "
-    "partition_irrelevant; skip_positions and dir_matches_load for the variant Model/Op4.lean models in full (32-bit "
-    "keys, double precision, both byte orders, three layouts). NOT proved: skip_positions / dir_matches_load for "
-    "64-bit keys, single precision and ASCII, op2_roundtrip, named_subset = filter, cutoff_irrelevant (no Lean model "
-    "of those readers) - established by the exact correspondence streams (dir, namelist subset, op2 directory byte "
-    "positions, read-vs-skip end positions, strings on both sides of the 3000-value cut-off) only"
+    "proved (Lean): OUTPUT4 column-payload round trip for any string partition and either words-per-real (word level), "
+    "partition_irrelevant; OUTPUT4 skip_positions and dir_matches_load for the variant Model/Op4.lean models in full "
+    "(32-bit keys, double precision, both byte orders, three layouts). OUTPUT2, about the transcription Model/Op2Read.lean "
+    "of op2.py's readers and the independent encoder Model/Op2.lean, for both key widths, both byte orders, single/double, "
+    "real/complex: op2_int/key/header/nt_roundtrip, op2_matrix_roundtrip (any strings that fit, both sides of the "
+    "3000-value cut-over: op2_cutoff_irrelevant), op2_partition_irrelevant (any two IsPartition cuts of the same columns "
+    "read equally), op2_table_roundtrip (records = concatenated pieces, then None; tabheaders = 3 keys + byte length of "
+    "every piece), op2_skip_positions / op2_skip_record (skippers leave what the readers leave on encoded bodies) and "
+    "op2_skip_positions_general / op2_skip_record_general (the same on EVERY byte string on which the reader succeeds and "
+    "the visited record lengths are aligned), op2_open_detects, op2_dir_matches_read (directory = entriesFrom with byte "
+    "ranges = positions; reading from a listed start returns the block and ends at the listed stop), op2_goto_next, "
+    "op2_roundtrip (rdop2mats = last block of every distinct matrix name, in order of first appearance). "
+    "NOT proved: OUTPUT4 skip_positions / dir_matches_load for 64-bit keys, single precision and ASCII, named_subset = "
+    "filter, OUTPUT4 cutoff_irrelevant (no Lean model of those readers) - established by the exact correspondence "
+    "streams (dir, namelist subset, read-vs-skip end positions, strings on both sides of the 3000-value cut-off, rows "
+    "65535..65537) only. For OUTPUT2 the step from Model/Op2Read.lean to op2.py is a checked correspondence (rd2 streams), "
+    "not a proof; rdop2mats with a name list / wildcards / which != -1, rdop2record with form != int or N > 0, and "
+    "next_db_info's bisect (modelled as 'first block starting after the position', equal for increasing starts) are not "
+    "modelled; a converse of the general skip theorem (skip succeeds => read succeeds) does not hold (shape errors) and "
+    "is not stated"
 )
 MANIFEST = {
     "level_text": "Proof (Lean 4) that the word-level column decoders of the OUTPUT4 reader, generalised over the words "
     "per real, invert the encoder for every partition of a column into strings (bigmat and nonbigmat), hence two "
-    "partitions of the same column decode equally; the binary skipper ends where the reader ends and dir lists what "
-    "load returns (32-bit keys, double precision); plus exact correspondence: files produced by Lean encoders written "
-    "from the formats (OUTPUT4 binary/ASCII variants, OUTPUT2 matrix and table blocks) are read back by pyYeti's "
-    "readers to exactly the encoded content, and listings (op4.dir, op2 directory byte ranges, trailers, headers) "
-    "equal what the reads return.",
-    "level_note": "Partial: listing/skip for the other key widths / precisions / ASCII and all OUTPUT2 statements are not "
-    "proved, only checked by correspondence. The OUTPUT2 "
-    "layout is the one pyYeti's reader defines. Trusted: Lean kernel, standard axioms, the Python harness.",
-    "technique": "Lean 4 proof (induction over strings, generic real codec) + independent Lean encoders read by the real readers",
+    "partitions of the same column decode equally; the OUTPUT4 binary skipper ends where the reader ends and dir lists "
+    "what load returns (32-bit keys, double precision). Proof (Lean 4) that a transcription of pyYeti's OUTPUT2 readers "
+    "(_op2open, _getkey, rdop2header, rdop2nt, rdop2matrix, skipop2matrix, rdop2record, skipop2record, rdop2tabheaders, "
+    "directory, goto_next, rdop2mats) inverts an independent encoder for every key width, byte order, precision, "
+    "real/complex, string partition and record split; that skipping leaves the bytes that reading leaves (on encoded "
+    "bodies, and on every byte string with aligned record lengths); that the directory lists the true byte ranges and "
+    "positioned reads return the listed blocks; that rdop2mats keeps the last block of a repeated name. Plus exact "
+    "correspondence: files produced by the Lean encoders are read back by pyYeti's readers to exactly the encoded "
+    "content, and the Lean reader model returns / raises exactly what pyYeti returns / raises on generated files, on "
+    "the OUTPUT2 sample files written by Nastran and on truncated or mis-announced files.",
+    "level_note": "Partial: OUTPUT4 listing/skip for the other key widths / precisions / ASCII are not proved, only "
+    "checked by correspondence; the OUTPUT2 reader model is tied to op2.py by differential checking (hand transcription, "
+    "no translator). The OUTPUT2 layout is the one pyYeti's reader defines. Trusted: Lean kernel, standard axioms, the "
+    "Python harness.",
+    "technique": "Lean 4 proof (induction over strings / pieces / columns / blocks with fuel-indexed loops, byte-level "
+    "two's-complement lemmas, generic real codec) + independent Lean encoders read by the real readers + Lean reader "
+    "model run on real and malformed files",
 }
 
 # ---------------------------------------------------------------------------------------------
@@ -220,6 +263,52 @@ def _gen_mat(rng, single, lay=None, big=False):
     neg = (lay == "b") or (lay == "d" and rng.random() < 0.2)
     return {"name": _name(rng), "form": rng.choice([1, 2, 6, 3, 9]), "cplx": cplx, "rows": rows, "ncols": ncols,
             "lay": lay, "neg": neg, "cols": cols}
+
+
+_ROWS4BIGMAT = 65536  # OP4._rows4bigmat (Generated/Op4Consts.lean: rows4bigmat); cases at -1, 0, +1
+
+
+def _gen_boundary_mat(rng, single, rows, lay, neg, ascii_vals=None):
+    """a cheap matrix whose row count sits on the bigmat threshold: 1-2 columns, a few short strings, one of
+    them touching the last row"""
+    cplx = rng.random() < 0.3
+    ncols = rng.choice([1, 2])
+    cols = []
+    for c in range(ncols):
+        if lay == "d":
+            r0 = rng.choice([0, rows - 3, rng.randrange(rows - 3)])
+            part = [(r0, rng.randint(1, min(3, rows - r0)))]
+        else:
+            starts = sorted({rng.randrange(0, rows - 8), rows - rng.randint(1, 3), rng.choice([0, 65534, 65535 - 3])})
+            part = []
+            for r0 in starts:
+                if part and r0 < part[-1][0] + part[-1][1]:
+                    continue
+                part.append((r0, rng.randint(1, min(3, rows - r0))))
+        strs = []
+        for r0, L in part:
+            n = L * (2 if cplx else 1)
+            vals = [ascii_vals(rng) for _ in range(n)] if ascii_vals else [_val(rng, single) or 1.0 for _ in range(n)]
+            strs.append((r0, vals))
+        cols.append((c, strs))
+    return {"name": _name(rng), "form": rng.choice([1, 2, 6]), "cplx": cplx, "rows": rows, "ncols": ncols,
+            "lay": lay, "neg": neg, "cols": cols}
+
+
+def _boundary_layouts():
+    """(rows, layout, negative NR) that a correct file can have around the threshold: positive NR with the
+    sparse (irow = 0) column format means nonbigmat below 65536 rows and bigmat from 65536 rows on; a negative
+    NR always means bigmat; dense columns with either sign"""
+    out = []
+    for rows in (_ROWS4BIGMAT - 1, _ROWS4BIGMAT, _ROWS4BIGMAT + 1):
+        out.append((rows, "b" if rows >= _ROWS4BIGMAT else "n", False))
+        out.append((rows, "b", True))
+        out.append((rows, "d", False))
+    return out
+
+
+def _boundary_branch(kind, m):
+    return "%s:rows=%d-%s-%s" % (kind, m["rows"], "negNR" if m["neg"] else "posNR", m["lay"])
 
 
 def _expected(m, conv=lambda v: v):
@@ -443,20 +532,72 @@ def _asc_tokens(case):
 # -- OUTPUT2 ----------------------------------------------------------------------------------------
 
 
-def _gen_op2_case(rng, big=False):
+_CUT = 3000  # OP2._rowsCutoff / OP4._rowsCutoff (Generated/Op4Consts.lean: rowsCutoff); lengths at -1, 0, +1
+
+
+def _gen_big_table(rng, k=0):
+    """a table whose records are split into pieces with lengths on both sides of the 3000-value cut-over between
+    struct.unpack and np.fromfile, in first and in later positions"""
+    L = [_CUT - 1, _CUT, _CUT + 1, 5000]
+    shapes = [[rng.choice(L[1:]), rng.choice([4000, 3, _CUT - 1])],           # first piece >= 3000, record continues
+              [_CUT - 1, rng.choice(L[1:])],                                     # first below, later at/above
+              [rng.choice([3, 20]), rng.choice(L), rng.choice([3, _CUT])],       # three pieces
+              [rng.choice(L)]]                                                   # a single piece
+    rng.shuffle(shapes)
+    recs = [[[rng.randint(-1000, 100000) for _ in range(n)] for n in shape] for shape in shapes[: rng.randint(2, 4)]]
+    # deterministic part (so that every declared branch is reached in every run): the k-th big table holds a
+    # record whose first piece is at/above the cut-over and whose second piece walks over 2999, 3000, 3001
+    fixed = ([_CUT, _CUT + 1, 5000][k % 3], [_CUT - 1, _CUT, _CUT + 1][(k // 3) % 3])
+    recs.insert(rng.randrange(len(recs) + 1), [[rng.randint(-9, 9) for _ in range(n)] for n in fixed])
+    return {"t": "t", "name": _name(rng).upper(), "trailer": [rng.randint(100, 200)] + [rng.randint(0, 70000) for _ in range(6)],
+            "records": recs}
+
+
+def _op2_branches(case):
+    out = set()
+    for b in case["blocks"]:
+        if b["t"] == "t":
+            for pieces in b["records"]:
+                for i, p in enumerate(pieces):
+                    for lo, nm in ((_CUT - 1, "=2999"), (_CUT, "=3000"), (_CUT + 1, "=3001")):
+                        if len(p) == lo:
+                            out.add("op2:piece%s" % nm)
+                    if len(p) >= _CUT:
+                        if len(pieces) > 1:
+                            out.add("op2:piece>=3000-first-of-many" if i == 0 else "op2:piece>=3000-later")
+                        else:
+                            out.add("op2:piece>=3000-alone")
+        else:
+            for strs in b["cols"]:
+                for _, vals in strs:
+                    for lo, nm in ((_CUT - 1, "=2999"), (_CUT, "=3000"), (_CUT + 1, "=3001")):
+                        if len(vals) == lo:
+                            out.add("op2:string%s-reals" % nm)
+                    if len(vals) >= _CUT:
+                        out.add("op2:string>=3000-reals")
+    return out
+
+
+def _gen_op2_case(rng, big=False, bigtab=False):
     bit64 = rng.random() < 0.4
     blocks = []
+    if bigtab:
+        blocks.append(_gen_big_table(rng, int(bigtab)))
     for _ in range(rng.randint(1, 4)):
-        if rng.random() < 0.55:
+        if rng.random() < 0.55 or big:
             single = rng.random() < 0.5
-            cplx = rng.random() < 0.35
+            cplx = rng.random() < 0.35 and not (big and int(big) % 6 < 3)
             rows = rng.choice([3200]) if big else rng.choice([1, 2, 3, 6, 10])
             ncols = rng.choice([1, 2, 3, 4])
             cols = []
             for c in range(ncols):
                 strs = []
-                if rng.random() < 0.8:
-                    for r0, L in _partition(rng, rows, big=big and c == 0):
+                if rng.random() < 0.8 or (big and c == 0):
+                    part = _partition(rng, rows, big=big and c == 0)
+                    if big and c == 0:  # the k-th big matrix starts with a string of 2999, 3000, 3001 elements
+                        L0 = [_CUT - 1, _CUT, _CUT + 1][int(big) % 3]
+                        part = [(0, L0)] + [(r0, L) for r0, L in part[1:] if r0 >= L0]
+                    for r0, L in part:
                         strs.append((r0 + 1, [_val(rng, single) for _ in range(L * (2 if cplx else 1))]))
                 cols.append(strs)
             mtype = (3 if cplx else 1) + (0 if single else 1)
@@ -536,6 +677,11 @@ def _check_op2_file_(op2, path, case, positions):
         if got != want:
             return ("directory", got[:4], want[:4])
         kb = 8 if case["bit64"] else 4
+        for s in o2.dblist:  # skipping over a data block leaves the reader at the next one
+            o2.set_position(s.start)
+            o2.goto_next()
+            if o2._fileh.tell() != s.stop:
+                return ("goto-next", {"from": int(s.start), "lands": int(o2._fileh.tell())}, {"next block starts at": int(s.stop)})
         for s, b in zip(o2.dblist, blocks):
             if b["t"] == "t":
                 wanth = [[tuple(p[:3]), len(p) * kb] for pieces in b["records"] for p in pieces]
@@ -647,12 +793,22 @@ def _nontrivial(case):
 def _cases(ctx):
     rng = ctx.rng
     cases = []
+    for rep in range(ctx.pick(1, 4)):
+        for rows, lay, neg in _boundary_layouts():
+            single = rng.random() < 0.5
+            cases.append({"kind": "op4bin", "endian": rng.choice(["l", "b"]), "bit64": rng.random() < 0.4, "single": single,
+                          "mats": [_gen_boundary_mat(rng, single, rows, lay, neg)] + ([_gen_mat(rng, single)] if rng.random() < 0.5 else [])})
+            c = _gen_asc_case(rng)
+            maxdig = c["width"] - 8
+            c["mats"] = [_gen_boundary_mat(rng, c["single"], rows, lay, neg, ascii_vals=lambda r: _gen_adec(r, maxdig, True))] + c["mats"][:1]
+            c["mats"][0]["name"] = c["mats"][0]["name"].upper()
+            cases.append(c)
     for i in range(ctx.pick(1500, 9000)):
         cases.append(_gen_bin_case(rng, big=(i % 60 == 0)))
     for i in range(ctx.pick(900, 5000)):
         cases.append(_gen_asc_case(rng))
     for i in range(ctx.pick(1200, 7000)):
-        cases.append(_gen_op2_case(rng, big=(i % 60 == 0)))
+        cases.append(_gen_op2_case(rng, big=(i // 60 + 1 if i % 60 == 0 else 0), bigtab=(i // 40 + 1 if i % 40 == 1 else 0)))
     return cases
 
 
@@ -666,6 +822,7 @@ def correspondence(ctx):
         for c in cases:
             req.append({"op4bin": _bin_tokens, "op4asc": _asc_tokens, "op2": _op2_tokens}[c["kind"]](c))
         rep = drv.ask(req)
+        encoded = []
         for case, r in zip(cases, rep):
             kind = case["kind"]
             ctx.case((kind, json.dumps(_jsonable_case(case), sort_keys=True)), nontrivial=_nontrivial(case), branch="stream:" + kind)
@@ -676,10 +833,13 @@ def correspondence(ctx):
                 positions = [tuple(int(t) for t in p.split(":")) for p in pos.split(",")] if pos else []
                 p = sc.path(".op2")
                 open(p, "wb").write(bytes.fromhex(hx))
+                encoded.append((case, positions, bytes.fromhex(hx)))
                 res = _check_op2_file(op2, p, case, positions)
                 ctx.count("op2:%s-%s" % (case["endian"], "64" if case["bit64"] else "32"))
                 for b in case["blocks"]:
                     ctx.count("op2:block-" + b["t"])
+                for br in _op2_branches(case):
+                    ctx.count(br)
             else:
                 p = sc.path(".op4")
                 open(p, "wb").write(bytes.fromhex(r))
@@ -691,6 +851,8 @@ def correspondence(ctx):
                     ctx.count("op4asc:" + ("D" if case["useD"] else "E"))
                 for m in case["mats"]:
                     ctx.count("%s:layout-%s" % (kind, m["lay"]))
+                    if abs(m["rows"] - _ROWS4BIGMAT) <= 1:
+                        ctx.count(_boundary_branch(kind, m))
                 res = _check_op4_file(op4, p, case["mats"], mt, _conv_for(case))
             if res is not None:
                 ctx.disagree(kind + ":" + res[0], _jsonable_case(case), res[1], res[2])
@@ -701,6 +863,8 @@ def correspondence(ctx):
                 ctx.sample({"kind": kind, "variant": {k: v for k, v in case.items() if k not in ("mats", "blocks")}})
             os.remove(p)
         _nastran_files(ctx, op4)
+        if len(ctx.disagreements) <= 80:
+            _reader_model_streams(ctx, op2, drv, sc, encoded)
         ctx.extra["first_disagreements"] = [
             {"stream": d["stream"], "impl": str(d["impl"])[:300], "model": str(d["model"])[:300],
              "variant": {k: v for k, v in d["input"].items() if k not in ("mats", "blocks")} if isinstance(d["input"], dict) else None}
@@ -708,7 +872,21 @@ def correspondence(ctx):
         if not ctx.disagreements and not ctx.broken:
             ctx.require_branches(["stream:nastran-file", "stream:op4bin", "stream:op4asc", "stream:op2", "op4bin:l-32-single", "op4bin:b-64-double",
                                   "op4bin:l-64-single", "op4bin:b-32-double", "op4asc:D", "op4asc:E", "op4bin:layout-d",
-                                  "op4bin:layout-b", "op4bin:layout-n", "op2:l-64", "op2:b-32", "op2:block-m", "op2:block-t"])
+                                  "op4bin:layout-b", "op4bin:layout-n", "op2:l-64", "op2:b-32", "op2:block-m", "op2:block-t"]
+                                 + ["%s:rows=%d-%s-%s" % (k, r, "negNR" if n else "posNR", l)
+                                    for k in ("op4bin", "op4asc") for r, l, n in _boundary_layouts()]
+                                 + ["op2:piece>=3000-first-of-many", "op2:piece>=3000-later", "op2:piece=2999", "op2:piece=3000",
+                                    "op2:piece=3001", "op2:string>=3000-reals", "op2:string=2999-reals", "op2:string=3000-reals",
+                                    "op2:string=3001-reals"]
+                                 + ["stream:rd2:generated", "stream:rd2:sample-file", "stream:rd2:malformed-truncated",
+                                    "stream:rd2:malformed-first-word", "stream:rd2:malformed-key-width",
+                                    "stream:rd2:malformed-content-string-too-long", "stream:rd2:malformed-content-short-piece",
+                                    "stream:rd2:malformed-content-extra-column", "stream:rd2:malformed-content-row-zero",
+                                    "stream:rd2:malformed-content-one-value-beyond", "rd2:open-ok", "rd2:open-raises-struct",
+                                    "rd2:open-raises-value", "rd2:block-raises-struct", "rd2:block-raises-value",
+                                    "rd2:block-raises-index", "rd2:block-table", "rd2:block-matrix", "rd2:l-32", "rd2:l-64",
+                                    "rd2:b-32", "rd2:b-64", "rd2:matrix-width-4-real", "rd2:matrix-width-4-complex",
+                                    "rd2:matrix-width-8-real", "rd2:matrix-width-8-complex"])
     finally:
         sc.close()
 
@@ -749,6 +927,427 @@ def _nastran_files(ctx, op4):
         if model != w:
             ctx.disagree("nastran-file:dec-" + mode, {"file": name}, str(w)[:300], str(model)[:300])
 
+
+
+# -- the Lean reader model (Model/Op2Read.lean, driver command rd2) against pyYeti's readers ------------
+
+
+def _exc_class(e):
+    """the small enum both sides use for 'raises'"""
+    if isinstance(e, (UnicodeDecodeError, MemoryError, OverflowError, OSError)):
+        return "exotic"  # non-ASCII header text, allocation of a garbage length, backward seek before the file start
+    if isinstance(e, struct.error):
+        return "struct"
+    if isinstance(e, TimeoutError):
+        return "timeout"
+    if isinstance(e, ValueError):
+        return "value"
+    if isinstance(e, IndexError):
+        return "index"
+    if isinstance(e, RuntimeError):
+        return "empty"
+    return type(e).__name__
+
+
+def _f32_to_f64_bits(bits):
+    return np.array(bits, dtype=np.uint32).view(np.float32).astype(np.float64).view(np.uint64).tolist()
+
+
+def _canon_matrix(X, width):
+    """('M', stored rows, cplx, width, ncols, per column [(row, float64 bits of the non-zero patterns)])"""
+    X = np.asarray(X)
+    cplx = bool(np.iscomplexobj(X))
+    rows, ncols = X.shape
+    raw = np.ascontiguousarray(X.T).view(np.float64).reshape(ncols, -1) if cplx else np.ascontiguousarray(X.T, dtype=np.float64)
+    raw = raw.reshape(ncols, rows * (2 if cplx else 1))
+    bits = raw.view(np.uint64)
+    cols = []
+    for j in range(ncols):
+        idx = np.nonzero(bits[j])[0]
+        cols.append(list(zip(idx.tolist(), bits[j][idx].tolist())))
+    return ("M", rows * (2 if cplx else 1), cplx, width, ncols, cols)
+
+
+_HUGE = 20000000
+
+
+def _py_read_op2(op2, path, limit=20):
+    """everything the directory / positioned reads / rdop2mats of pyYeti say about the file, canonical"""
+    try:
+        with _TimeLimit(limit):
+            o2 = op2.OP2(path)
+    except Exception as e:  # noqa: BLE001
+        return {"open": _exc_class(e)}
+    try:
+        out = {"open": "ok", "endian": "b" if o2._endian == ">" else "l", "bit64": o2._ibytes == 8,
+               "date": None if o2._date is None else [int(x) for x in o2._date],
+               "label": None if o2._label is None else o2._label.encode().hex(),
+               "postpos": int(o2._postheaderpos), "blocks": []}
+        huge = False
+        for sn in o2.dblist:
+            b = {"name": sn.name.encode().hex(), "start": int(sn.start), "stop": int(sn.stop), "dbtype": int(sn.dbtype),
+                 "size": [int(sn.size[0]), int(sn.size[1])], "trailer": [int(x) for x in sn.trailer],
+                 "headers": [[[int(x) for x in h[0]], int(h[1])] for h in sn.headers]}
+            if int(sn.stop) - int(sn.start) - 1 != int(sn.nbytes):
+                b["nbytes"] = int(sn.nbytes)  # never present in the model's dump: shows up as a difference
+            try:
+                with _TimeLimit(limit):
+                    o2.set_position(sn.start)
+                    o2.goto_next()
+                    b["goto"] = int(o2._fileh.tell())
+            except Exception as e:  # noqa: BLE001
+                b["goto"] = _exc_class(e)
+            try:
+                with _TimeLimit(limit):
+                    o2.set_position(sn.start)
+                    nm, tr, ty = o2.rdop2nt()
+                    if nm is None:
+                        b["content"] = ("E", "eof")
+                    elif sn.dbtype > 0:
+                        if abs(int(sn.size[0])) * abs(int(sn.size[1])) > _HUGE:
+                            huge = True
+                            b["content"] = ("E", "huge")
+                        else:
+                            X = o2.rdop2matrix(tr)
+                            w = o2._fbytes if (tr[4] & 1) else 8
+                            b["content"] = _canon_matrix(X, w) + (int(o2._fileh.tell()),)
+                    else:
+                        recs = []
+                        while True:
+                            r = o2.rdop2record()
+                            if r is None:
+                                break
+                            recs.append([int(x) for x in r])
+                        b["content"] = ("T", recs, int(o2._fileh.tell()))
+            except Exception as e:  # noqa: BLE001
+                b["content"] = ("E", _exc_class(e))
+            out["blocks"].append(b)
+        if huge or any(abs(b["size"][0]) * abs(b["size"][1]) > _HUGE for b in out["blocks"]):
+            out["mats"] = ("E", "huge")
+        else:
+            try:
+                with _TimeLimit(limit):
+                    mats = o2.rdop2mats()
+                lst = []
+                for nm, X in mats.items():  # dict order = order of first appearance
+                    sn = [x for x in o2.dblist if x.name == nm and x.dbtype == 1][-1]
+                    lst.append((nm.encode().hex(), _canon_matrix(X, o2._fbytes if (sn.trailer[4] & 1) else 8)))
+                out["mats"] = lst
+            except Exception as e:  # noqa: BLE001
+                out["mats"] = ("E", _exc_class(e))
+        return out
+    finally:
+        if o2._fileh:
+            o2._fileh.close()
+            o2._fileh = None
+
+
+class _Toks:
+    def __init__(self, txt):
+        self.t = txt.split(" ")
+        self.i = 0
+
+    def next(self):
+        x = self.t[self.i]
+        self.i += 1
+        return x
+
+    def int(self):
+        return int(self.next())
+
+    def ints(self):
+        x = self.next()
+        return [] if x == "-" else [int(y) for y in x.split(",")]
+
+    def hex(self):
+        x = self.next()
+        return "" if x == "-" else x
+
+
+def _parse_mat(tk):
+    rows, cplx, width, ncols = tk.int(), tk.int() == 1, tk.int(), tk.int()
+    cols = []
+    for _ in range(ncols):
+        n = tk.int()
+        ent = [tk.next().split(":") for _ in range(n)]
+        idx = [int(a) for a, _ in ent]
+        bits = [int(b) for _, b in ent]
+        if width == 4:
+            bits = _f32_to_f64_bits(bits)
+        cols.append(list(zip(idx, bits)))
+    return ("M", rows, cplx, width, ncols, cols)
+
+
+def _parse_rd2(txt):
+    """the dump of driver command rd2 in the canonical form of _py_read_op2"""
+    tk = _Toks(txt)
+    head = tk.next()
+    if head == "err":
+        return {"open": tk.next()}
+    if head != "ok":
+        raise Infra("driver C11 rd2: unexpected reply %r" % txt[:80])
+    out = {"open": "ok", "endian": tk.next(), "bit64": tk.next() == "1"}
+    date, label, has = tk.ints(), tk.hex(), tk.next() == "1"
+    out["date"] = date if has else None
+    out["label"] = label if has else None
+    out["postpos"] = tk.int()
+    out["blocks"] = []
+    for _ in range(tk.int()):
+        if tk.next() != "B":
+            raise Infra("driver C11 rd2: block expected")
+        b = {"name": tk.hex(), "start": tk.int(), "stop": tk.int(), "dbtype": tk.int()}
+        b["size"] = [int(x) for x in tk.next().split(",")]
+        b["trailer"] = tk.ints()
+        b["headers"] = [[tk.ints(), tk.int()] for _ in range(tk.int())]
+        g = tk.next()
+        b["goto"] = int(g) if g.lstrip("-").isdigit() else g
+        kind = tk.next()
+        if kind == "E":
+            b["content"] = ("E", tk.next())
+        elif kind == "M":
+            b["content"] = _parse_mat(tk) + (tk.int(),)
+        else:
+            recs = [[tk.int() for _ in range(tk.int())] for _ in range(tk.int())]
+            b["content"] = ("T", recs, tk.int())
+        out["blocks"].append(b)
+    if tk.next() != "MATS":
+        raise Infra("driver C11 rd2: MATS expected")
+    x = tk.next()
+    if x == "E":
+        out["mats"] = ("E", tk.next())
+    else:
+        lst = []
+        for _ in range(int(x)):
+            nm = tk.hex()
+            if tk.next() != "M":
+                raise Infra("driver C11 rd2: matrix expected")
+            lst.append((nm, _parse_mat(tk)))
+        out["mats"] = lst
+    if tk.i != len(tk.t):
+        raise Infra("driver C11 rd2: trailing tokens")
+    return out
+
+
+def _exotic(model):
+    """the model met behaviour it does not describe (backward seek, non-ASCII label) somewhere"""
+    if model["open"] in ("exotic", "fuel"):
+        return True
+    if model["open"] != "ok":
+        return False
+    for b in model["blocks"]:
+        if b["content"][0] == "E" and b["content"][1] in ("exotic", "fuel"):
+            return True
+    return isinstance(model["mats"], tuple) and model["mats"][1] in ("exotic", "fuel")
+
+
+def _first_diff(a, b, path=""):
+    """None or (path, a-part, b-part) of the first difference of two canonical readings"""
+    if isinstance(a, dict) and isinstance(b, dict):
+        for k in sorted(set(a) | set(b)):
+            if k not in a or k not in b:
+                return (path + "/" + k, a.get(k, "<absent>"), b.get(k, "<absent>"))
+            d = _first_diff(a[k], b[k], path + "/" + k)
+            if d:
+                return d
+        return None
+    if isinstance(a, (list, tuple)) and isinstance(b, (list, tuple)):
+        if len(a) != len(b):
+            return (path + "/len", len(a), len(b))
+        for i, (x, y) in enumerate(zip(a, b)):
+            d = _first_diff(x, y, "%s/%d" % (path, i))
+            if d:
+                return d
+        return None
+    if a != b:
+        return (path, a, b)
+    return None
+
+
+def _expected_reading(case, positions):
+    """the canonical reading that the logical content of a generated OUTPUT2 case stands for"""
+    kb = 8 if case["bit64"] else 4
+    out = {"open": "ok", "endian": case["endian"], "bit64": bool(case["bit64"]), "date": list(case["date"]),
+           "label": case["label"].encode().hex(), "postpos": positions[0][0] if positions else None, "blocks": []}
+    mats = {}
+    for i, (b, (a, z)) in enumerate(zip(case["blocks"], positions)):
+        e = {"name": b["name"].encode().hex(), "start": a, "stop": z, "dbtype": 1 if b["t"] == "m" else 0,
+             "trailer": list(b["trailer"]), "goto": z}
+        if b["t"] == "m":
+            w = 4 if (b["single"] and not case["bit64"]) else 8
+            e["size"] = [b["trailer"][2], b["trailer"][1]]
+            e["headers"] = []
+            cm = _canon_matrix(_op2_expected_matrix(b), w)
+            e["content"] = cm + (z,)
+            mats[e["name"]] = cm
+        else:
+            e["size"] = [0, 0]
+            e["headers"] = [[list(p[:3]), len(p) * kb] for pieces in b["records"] for p in pieces]
+            e["content"] = ("T", [[x for p in pieces for x in p] for pieces in b["records"]], z)
+        out["blocks"].append(e)
+    out["mats"] = [(k, v) for k, v in mats.items()]
+    return out
+
+
+def _sample_op2_files(ctx):
+    root = os.path.join(ctx.repo, "pyyeti", "tests")
+    files = sorted(glob.glob(os.path.join(root, "**", "*.op2"), recursive=True))
+    keep = []
+    for f in files:
+        if os.path.getsize(f) > 3_000_000 and not ctx.thorough:
+            ctx.skip("op2 sample file larger than 3 MB (quick tier)")
+            continue
+        keep.append(f)
+    return keep
+
+
+def _mutations(rng, data, n_trunc):
+    """(kind, bytes): truncations at random positions, a wrong first word, the other key width announced"""
+    out = []
+    for _ in range(n_trunc):
+        k = rng.choice([rng.randrange(0, len(data) + 1), rng.randrange(0, min(len(data), 400) + 1),
+                        max(0, len(data) - rng.randint(1, 40))])
+        out.append(("truncated", data[:k]))
+    return out
+
+
+def _malformed_content(rng, case):
+    """(kind, case') : a copy of the case that violates ONE well-formedness hypothesis of the theorems; the file is
+    still laid out by the (Python) encoder, so the framing is intact and the readers meet numpy's slice semantics
+    (shape mismatch, broadcast of one value into an empty slice, negative start, column index) or the backward
+    seek of rdop2tabheaders"""
+    import copy
+
+    c = copy.deepcopy(case)
+    mats = [b for b in c["blocks"] if b["t"] == "m" and any(b["cols"])]
+    tabs = [b for b in c["blocks"] if b["t"] == "t" and b["records"]]
+    kinds = []
+    if mats:
+        kinds += ["string-too-long", "one-value-beyond", "row-zero", "extra-column", "fewer-columns", "row-far-beyond"]
+    if tabs:
+        kinds += ["short-piece", "empty-record"]
+    kinds += ["no-columns"] if any(b["t"] == "m" for b in c["blocks"]) else []
+    if not kinds:
+        return None
+    kind = rng.choice(kinds)
+    if kind in ("string-too-long", "one-value-beyond", "row-zero", "row-far-beyond"):
+        b = rng.choice(mats)
+        rows = b["trailer"][2]
+        mult = 2 if b["cplx"] else 1
+        j = rng.choice([k for k, strs in enumerate(b["cols"]) if strs])
+        i = rng.randrange(len(b["cols"][j]))
+        r, vals = b["cols"][j][i]
+        if kind == "string-too-long":
+            b["cols"][j][i] = (rows - rng.randint(0, 1), vals + [1.5] * (mult * rng.randint(1, 2)))
+        elif kind == "one-value-beyond":
+            b["cols"][j][i] = (rows + rng.randint(1, 3), vals[:mult])
+        elif kind == "row-far-beyond":
+            b["cols"][j][i] = (rows + rng.randint(2, 9), vals)
+        else:
+            b["cols"][j][i] = (0, vals[: mult * rng.randint(1, 2)] or [2.5] * mult)
+    elif kind == "extra-column":
+        b = rng.choice(mats)
+        b["cols"].append([(1, [3.25] * (2 if b["cplx"] else 1))] if rng.random() < 0.7 else [])
+    elif kind == "fewer-columns":
+        b = rng.choice(mats)
+        b["trailer"][1] += rng.randint(1, 2)
+    elif kind == "no-columns":
+        b = rng.choice([b for b in c["blocks"] if b["t"] == "m"])
+        b["cols"] = []
+    elif kind == "short-piece":
+        b = rng.choice(tabs)
+        pieces = rng.choice(b["records"])
+        k = rng.randrange(len(pieces))
+        pieces[k] = pieces[k][: rng.randint(1, 2)]
+    else:
+        b = rng.choice(tabs)
+        b["records"].insert(rng.randrange(len(b["records"]) + 1), [])
+    return kind, c
+
+
+def _reader_model_streams(ctx, op2, drv, sc, encoded):
+    """streams (a) (b) (c) of the reader model: `encoded` = [(case, positions, bytes)] of the generated cases"""
+    if sys.byteorder != "little":
+        raise Infra("Model/Op2Read.lean assumes a little-endian host (struct.unpack('i') in _op2open)")
+    rng = ctx.rng
+    items = []  # (stream, input description, bytes, expected reading or None)
+    for case, positions, data in encoded:
+        items.append(("rd2:generated", case, data, _expected_reading(case, positions)))
+    ngen = len(items)
+    for f in _sample_op2_files(ctx):
+        data = open(f, "rb").read()
+        items.append(("rd2:sample-file", {"file": os.path.relpath(f, ctx.repo)}, data, None))
+        if len(data) <= 60000:
+            for kind, d in _mutations(rng, data, ctx.pick(3, 12)):
+                items.append(("rd2:malformed-" + kind, {"file": os.path.relpath(f, ctx.repo), "cut": len(d)}, d, None))
+    pick = list(range(ngen))
+    rng.shuffle(pick)
+    for i in pick[: ctx.pick(160, 1200)]:
+        case, positions, data = encoded[i]
+        if len(data) > 60000:
+            continue
+        cuts = [rng.randrange(0, len(data) + 1), rng.choice([a for a, _ in positions] + [z for _, z in positions])]
+        for k in cuts:
+            items.append(("rd2:malformed-truncated", {"case": case, "cut": k}, data[:k], None))
+        r = rng.random()
+        if r < 0.25:
+            w = struct.pack("<i" if rng.random() < 0.5 else ">i", rng.choice([0, 1, 3, 5, 12, 16, -4, 2 ** 24 * 4, 1028]))
+            items.append(("rd2:malformed-first-word", {"case": case, "word": w.hex()}, w + data[4:], None))
+        elif r < 0.5:
+            e = "<i" if case["endian"] == "l" else ">i"
+            w = struct.pack(e, 4 if case["bit64"] else 8)
+            items.append(("rd2:malformed-key-width", {"case": case, "word": w.hex()}, w + data[4:], None))
+    for i in pick[: ctx.pick(260, 2000)]:
+        case = encoded[i][0]
+        if any(len(strs) and max(len(v) for _, v in strs) > 200 for b in case["blocks"] if b["t"] == "m" for strs in b["cols"]):
+            continue
+        m = _malformed_content(rng, case)
+        if m is None:
+            continue
+        data, _ = _py_encode_op2(m[1])
+        items.append(("rd2:malformed-content-" + m[0], {"case": m[1], "violates": m[0]}, data, None))
+    rep = drv.ask(["rd2 " + d.hex() for _, _, d, _ in items])
+    for (stream, desc, data, want), r in zip(items, rep):
+        if r == "bad-op":
+            raise Infra("driver C11 refused an rd2 request")
+        model = _parse_rd2(r)
+        if "kind" in desc:
+            desc = _jsonable_case(desc)
+        elif "case" in desc:
+            desc = dict(desc, case=_jsonable_case(desc["case"]))
+        ctx.case((stream, hashlib_key(data)), nontrivial=True, branch="stream:" + stream)
+        if _exotic(model) and stream.startswith("rd2:malformed"):
+            ctx.skip("reader model: behaviour outside the model (backward seek / non-ASCII label / garbage length) on a malformed file")
+            continue
+        if want is not None:
+            d = _first_diff(want, model)
+            if d:
+                ctx.disagree(stream + ":model-vs-content" + d[0], desc, "content: %s" % (str(d[1])[:200]), "Lean reader: %s" % (str(d[2])[:200]))
+                continue
+        p = sc.path(".op2")
+        open(p, "wb").write(data)
+        impl = _py_read_op2(op2, p, limit=20 if stream == "rd2:sample-file" else 6)
+        os.remove(p)
+        d = _first_diff(impl, model)
+        if d:
+            ctx.disagree(stream + d[0], desc, str(d[1])[:300], str(d[2])[:300])
+            if len(ctx.disagreements) > 80:
+                break
+            continue
+        if model["open"] != "ok":
+            ctx.count("rd2:open-raises-" + model["open"])
+        else:
+            ctx.count("rd2:open-ok")
+            ctx.count("rd2:%s-%s" % (model["endian"], "64" if model["bit64"] else "32"))
+            for b in model["blocks"]:
+                ctx.count("rd2:block-" + {"M": "matrix", "T": "table", "E": "raises-" + str(b["content"][1])}[b["content"][0]])
+                if b["content"][0] == "M":
+                    ctx.count("rd2:matrix-width-%d-%s" % (b["content"][3], "complex" if b["content"][2] else "real"))
+
+
+def hashlib_key(data):
+    import hashlib
+
+    return hashlib.blake2b(data, digest_size=8).hexdigest()
 
 # ---------------------------------------------------------------------------------------------
 # model-free oracle
@@ -834,6 +1433,11 @@ def _sample_files(ctx):
                     if i + 1 < len(lst) and s.stop != lst[i + 1].start:
                         bad = ("gap", s.name)
                     o2.set_position(s.start)
+                    o2.goto_next()
+                    if o2._fileh.tell() != s.stop:
+                        bad = ("goto_next from the start of a block does not land on the next block", s.name)
+                        break
+                    o2.set_position(s.start)
                     nm, tr, ty = o2.rdop2nt()
                     if nm != s.name or tuple(tr) != tuple(s.trailer) or (ty > 0) != (s.dbtype > 0):
                         bad = ("rdop2nt", s.name)
@@ -869,10 +1473,15 @@ def search(ctx, hints):
             if isinstance(c, dict) and c.get("kind") in ("op4bin", "op2"):
                 cases.append(_from_json(c))
         rng = ctx.rng
+        for rep in range(ctx.pick(1, 3)):
+            for rows, lay, neg in _boundary_layouts():
+                single = rng.random() < 0.5
+                cases.append({"kind": "op4bin", "endian": rng.choice(["l", "b"]), "bit64": rng.random() < 0.4, "single": single,
+                              "mats": [_gen_boundary_mat(rng, single, rows, lay, neg)]})
         for i in range(ctx.pick(300, 3000)):
             cases.append(_gen_bin_case(rng, big=(i % 50 == 0)))
         for i in range(ctx.pick(250, 2500)):
-            cases.append(_gen_op2_case(rng, big=(i % 50 == 0)))
+            cases.append(_gen_op2_case(rng, big=(i // 50 + 1 if i % 50 == 0 else 0), bigtab=(i // 25 + 1 if i % 25 == 1 else 0)))
         nfail = 0
         for case in cases:
             ctx.count("oracle:" + case["kind"])
